@@ -87,6 +87,95 @@ def _sdeint(ctx, key, what, replay, *args, **kw):
         return None
 
 
+# Adaptive stepping: C17 is not restricted to fixed steps.  The controller settings keep the step factor
+# unsaturated (estimates between about 0.05 and 1, so the proposed step really depends on the estimate).
+ADAPTIVE = [dict(dt=0.1, ts=[0.0, 0.35, 1.0], rtol=1e-2, atol=1e-2), dict(dt=0.05, ts=[0.0, 0.5, 0.8], rtol=2e-3, atol=2e-3),
+            dict(dt=0.2, ts=[0.0, 1.0], rtol=5e-2, atol=5e-3)]
+
+
+def _adaptive_pairs(ctx, combos):
+    """(special declaration, general embedding) with adaptive=True under ONE Brownian path: the same BrownianInterval
+    object answers both runs (a Brownian path, whatever intervals are asked), behind the recording proxy.  On equal
+    solutions both runs see equal error estimates, hence walk the same schedule; the solutions must agree to
+    4 ulp*scale per trial step.  When the schedules differ, the first controller trial at which the runs part is
+    examined: skipped (counted) only if the two estimates there agree to rounding (1e-9) and either lie within 5% of
+    1 (a last-bit difference may flip accept/reject) or merely shift the following times at rounding level (a
+    Brownian increment over a 1e-16 longer interval already differs by 1e-8, so such runs cannot be compared to
+    rounding); everything else - in particular equal estimates followed by different proposed steps - is a
+    violation."""
+    import warnings
+    st = dict(pairs=0, same_schedule=0, bit_equal=0, skipped_boundary=0, skipped_rounding_schedule=0, trials=0,
+              unsaturated_factors=0)
+    for ci, (nt, method, cal) in enumerate(combos):
+        for ai, lay in enumerate(ADAPTIVE if ctx.tier == "thorough" else ADAPTIVE[:2]):
+            d = 3
+            m = d if nt == "diagonal" else (1 if nt == "scalar" else 2)
+            B = 2
+            key = dict(nt=nt, method=method, adaptive=True, layout=ai)
+            seed = rng(ctx.seed, "c17-adaptive", nt, method, ai).randrange(2 ** 31)
+            gen = torch.Generator().manual_seed(seed)
+            sm_s = Smooth(nt, cal, d, m, gen, declared_general=False)
+            sm_g = Smooth(nt, cal, d, m, torch.Generator().manual_seed(seed), declared_general=True)
+            y0 = 0.5 * torch.randn(B, d, generator=gen, dtype=S.DT)
+            ts = lay["ts"]
+            inner = torchsde.BrownianInterval(t0=ts[0], t1=ts[-1], size=(B, m), dtype=S.DT, entropy=seed,
+                                              levy_area_approximation=S.levy_for(method))
+            record = {}
+            kw = dict(method=method, dt=lay["dt"], adaptive=True, rtol=lay["rtol"], atol=lay["atol"], dt_min=1e-5)
+            replay = dict(key=key, seed=seed, **lay)
+            runs = []
+            for sde in (sm_s, sm_g):
+                bm = S.ReplayBrownian(inner, record)
+                with S.CtlProbe() as probe, warnings.catch_warnings(), torch.no_grad():
+                    warnings.simplefilter("ignore")
+                    ys = _sdeint(ctx, key, "adaptive/" + sde.noise_type, replay, sde, y0, ts, bm=bm, **kw)
+                runs.append(dict(ys=ys, est=list(probe.estimates), steps=list(probe.steps),
+                                 sched=[q[:2] for q in bm.queries]))
+            a, b = runs
+            if a["ys"] is None or b["ys"] is None:
+                continue
+            st["pairs"] += 1
+            st["trials"] += len(a["est"])
+            st["unsaturated_factors"] += sum(1 for s0, s1 in zip([lay["dt"]] + a["steps"], a["steps"])
+                                             if 0.2001 < s1 / s0 < 1.3999 and abs(s1 / s0 - 1.0) > 1e-12)
+            n_trials = max(1, len(a["est"]), len(b["est"]))
+            scale = max(1.0, float(torch.maximum(a["ys"].abs(), b["ys"].abs()).max()))
+            err = float((a["ys"] - b["ys"]).abs().max())
+            budget = ULPS_PER_STEP * n_trials * torch.finfo(S.DT).eps * scale
+            if a["sched"] == b["sched"]:
+                st["same_schedule"] += 1
+                st["bit_equal"] += torch.equal(a["ys"], b["ys"])
+                if not err <= budget:
+                    ctx.violation(dict(key, what="adaptive"),
+                                  f"special vs general declaration differ under the same adaptive schedule: {err:.3e} > "
+                                  f"{budget:.3e}", replay=replay)
+            else:
+                # first controller trial at which the two runs part: estimates j and proposed steps j
+                nj = min(len(a["est"]), len(b["est"]))
+                j = next((i for i in range(nj) if a["est"][i] != b["est"][i] or a["steps"][i] != b["steps"][i]), nj)
+                if j < nj and a["est"][j] != b["est"][j]:
+                    ea, eb = a["est"][j], b["est"][j]
+                    rounding = abs(ea - eb) <= 1e-9 * max(abs(ea), abs(eb))
+                    if rounding and abs(ea - 1.0) <= 0.05 and abs(eb - 1.0) <= 0.05:
+                        st["skipped_boundary"] += 1          # a last-bit difference may flip accept/reject here
+                        continue
+                    if rounding and err <= 1e-6 * scale:
+                        st["skipped_rounding_schedule"] += 1  # same decisions, times differ at rounding level
+                        continue
+                # (equal estimates but different proposed steps: the controllers themselves differ)
+                k = next((i for i, (p, q) in enumerate(zip(a["sched"], b["sched"])) if p != q), min(len(a["sched"]), len(b["sched"])))
+                ctx.violation(dict(key, what="adaptive_schedule"),
+                              f"with adaptive=True the two declarations walk different step sequences under the same "
+                              f"Brownian path ({len(a['sched'])} vs {len(b['sched'])} Brownian queries, first difference at "
+                              f"query {k}: {a['sched'][k:k + 1]} vs {b['sched'][k:k + 1]}; estimates "
+                              f"{[round(e, 4) for e in a['est'][:4]]} vs {[round(e, 4) for e in b['est'][:4]]}) and the "
+                              f"solutions differ by {err:.3e} (budget {budget:.3e})", replay=replay)
+            ctx.case(("adaptive", S.case_id(key)), nontrivial=len(a["est"]) > 2,
+                     sample=dict(key=key, estimates=[round(e, 4) for e in a["est"][:8]],
+                                 steps=[round(x, 5) for x in a["steps"][:8]]) if st["pairs"] <= 2 else None)
+    return st
+
+
 def run(ctx):
     torch.set_num_threads(1)
     res = S.run_schemes(ctx.tier, timeout=900)
@@ -163,11 +252,13 @@ def run(ctx):
             nontrivial = float((a[-1] - a[0]).abs().max()) > 1e-3
             ctx.case(("smooth", kid, scale_up), nontrivial=nontrivial)
 
+    ad = _adaptive_pairs(ctx, sorted({(p["nt"], p["method"], p["cal"]) for p in scen}))
+
     ctx.rule = ("cases = every (special noise type x solver accepting both declarations x (d,m) x steps 1..3 x time "
                 "layout) state of Schemes.tla's scenario machine; each is executed on the real sdeint as a pair "
                 "(special declaration, general embedding) on TLC's polynomial SDE with prescribed increments and on "
                 "smooth tanh/sin SDEs of the enumerated and a 3x larger size under one recorded BrownianInterval "
-                "path; non-trivial = the solution moves (|y(T)-y(0)| > 1e-3)")
+                "path; plus, for every enumerated (special type x solver), adaptive=True pairs under one BrownianInterval; non-trivial = the solution moves (|y(T)-y(0)| > 1e-3)")
     ctx.exhaustive = True
     ctx.assumptions = ["diagonal declarations are element-wise (g_i depends on y_i, t only), as the documentation "
                        "requires; Schemes.tla shows the lemma fails otherwise (WitnessDiffers)",
@@ -178,6 +269,7 @@ def run(ctx):
     ctx.notes["max_rel_err_vs_tlc_values"] = max_tlc_err
     ctx.notes["forward_drift_cases"] = drift_n
     ctx.notes["actions_taken"] = cov
+    ctx.notes.update({"adaptive_" + k: v for k, v in ad.items()})
 
 
 def replay(path):
